@@ -72,6 +72,11 @@ func pgTextTimestamp(s string) (time.Time, bool) {
 }
 
 func buildNamedParams(paramsType []sql.ColDescriptor, paramsVal []interface{}) ([]*schema.NamedParam, error) {
+	// A Bind message may carry fewer values than the prepared statement has parameters
+	if len(paramsVal) < len(paramsType) {
+		return nil, fmt.Errorf("bind message supplies %d parameters, but the prepared statement requires %d", len(paramsVal), len(paramsType))
+	}
+
 	pMap := make(map[string]interface{})
 	for index, param := range paramsType {
 		name := param.Column
